@@ -3302,6 +3302,25 @@ func (db *DB) newGuardSet(owner uint64) *GuardSet {
 // Returns an error if no locks are supplied.
 func (db *DB) TryLocks(ctx context.Context, owner uint64, lockTypes []LockType) (bool, error) {
 	guardSet := db.CreateGuardSetIfNotExists(owner)
+
+	// Look before taking anything so that a request that cannot be granted as
+	// a whole does not hold any of its locks, not even for a moment. The locks
+	// taken below are still rolled back if another owner gets in between.
+	if len(lockTypes) > 1 {
+		holdsWrite := guardSet.write.State() == RWMutexStateExclusive
+		for _, lockType := range lockTypes {
+			if lockType == LockTypeCkpt && db.writeLock.State() != RWMutexStateUnlocked && !holdsWrite {
+				return false, nil
+			}
+			if ok, _ := guardSet.Guard(lockType).CanLock(); !ok {
+				return false, nil
+			}
+			if lockType == LockTypeWrite {
+				holdsWrite = true // taken by this request before CKPT is looked at
+			}
+		}
+	}
+
 	prevStates := make([]RWMutexState, 0, len(lockTypes))
 	for i, lockType := range lockTypes {
 		guard := guardSet.Guard(lockType)
@@ -3384,6 +3403,16 @@ func (db *DB) CanLock(ctx context.Context, owner uint64, lockTypes []LockType) (
 // Returns an error if no locks are supplied.
 func (db *DB) TryRLocks(ctx context.Context, owner uint64, lockTypes []LockType) bool {
 	guardSet := db.CreateGuardSetIfNotExists(owner)
+
+	// Look before taking (or downgrading) anything, see TryLocks.
+	if len(lockTypes) > 1 {
+		for _, lockType := range lockTypes {
+			if !guardSet.Guard(lockType).CanRLock() {
+				return false
+			}
+		}
+	}
+
 	prevStates := make([]RWMutexState, 0, len(lockTypes))
 	for i, lockType := range lockTypes {
 		prevStates = append(prevStates, guardSet.Guard(lockType).State())
